@@ -229,6 +229,10 @@ fn real_main(args: &[String], props: &[&dyn Prop]) -> i32 {
             say("STAGE done");
             0
         }
+        "c04learn" => {
+            let n: u64 = args.get(1).and_then(|s| s.parse().ok()).unwrap_or(500);
+            props::c04::learn(n)
+        }
         "obs" => {
             if args.len() < 2 {
                 return usage();
